@@ -1614,6 +1614,12 @@ func (n *node) SetCTRLC(enable bool) {
 //
 
 func (n *node) spawn(factory gen.ProcessFactory, options gen.ProcessOptionsExtra) (gen.PID, error) {
+	return n.spawnMember(factory, options, nil)
+}
+
+// spawnMember is spawn; 'registered' (if not nil) is called with the pid of the initialised
+// process right before it is registered in the node, i.e. before it can run, be killed or terminate
+func (n *node) spawnMember(factory gen.ProcessFactory, options gen.ProcessOptionsExtra, registered func(gen.PID)) (gen.PID, error) {
 	var empty gen.PID
 
 	if n.isRunning() == false {
@@ -1779,6 +1785,9 @@ func (n *node) spawn(factory gen.ProcessFactory, options gen.ProcessOptionsExtra
 	lib.VerifPoint("spawn.sleep", p)
 	p.state = int32(gen.ProcessStateSleep)
 	lib.VerifPoint("spawn.store", p)
+	if registered != nil {
+		registered(p.pid)
+	}
 	n.processes.Store(p.pid, p)
 
 	// do not count system app processes
